@@ -41,6 +41,8 @@ def dim_rule(repo, run, rid, funcs, floor):
 
 
 def run(repo, run, tier):
+    from .common import readonly
+    readonly(repo, run, "C14.9", OPT, ["brentsroot", "brentsrootvec"], "the Brent solvers")
     run.assumptions += ["NOT decided: that the returned point is within the requested tolerance of a sign change (convergence of the iteration on a given function)",
                         "kinds: a,b,c,d,s,tol are abscissae (X); fa,fb,fc,fs and f(.) are function values (G)"]
     dim_rule(repo, run, "C14.1", ["brentsroot", "brentsrootvec"], floor=12)
